@@ -88,9 +88,13 @@ def judge(ctx, scratch, traces, name='trace', timeout=3000, module='Trace_Codec'
         raise core.Machinery('trace acceptor consumed %d states, expected %d events + %d traces' % (
             r.distinct, nev, ntr))
     rejects = []
+    devs = {}
     for p in r.printed:
         if isinstance(p, list) and len(p) == 4 and p[0] == 'REJECT':
             rejects.append((p[1], p[2], p[3]))
+        if isinstance(p, list) and len(p) == 4 and p[0] == 'DEV':
+            devs[(p[1], p[2])] = sorted(p[3])
+    ctx.last_devs = devs
     return sorted(set(rejects))
 
 
@@ -279,6 +283,8 @@ def codec_common_finish(ctx, sc, cases, traces, clauses=None, name='trace'):
         f = dict(case_features(t))
         f.update(event_features(ev))
         f['clause'] = clause
+        if (tid, idx) in ctx.last_devs:
+            f['devs'] = ctx.last_devs[(tid, idx)]
         what = '%s: event %d (%s) of case %d, type %s' % (clause, idx, _ev_brief(ev), tid, shape_key(t['T']))
         ctx.report(what, f, {'prop': ctx.prop, 'kind': 'codec', 'T': t['T'], 'v': t['v'], 'event': ev,
                              'clause': clause, 'features': f})
@@ -300,3 +306,37 @@ def _ev_brief(ev):
                                                     core.hexs(ev['wire'])[:80] if ev['st'] == 'ok' else ev.get('exc'))
     return '%s %s %s %s -> %s %s' % (ev['op'], ev.get('rules'), ev.get('why', ''), core.hexs(ev.get('inp', []))[:80],
                                     ev.get('st'), ev.get('exc', ''))
+
+
+# -------------------------------------------------------------------- python-generated extra cases (sizes)
+def sc(kind, tags=()):
+    return {'k': kind, 'tags': list(tags)}
+
+
+def op(m, c, n):
+    return {'m': m, 'c': c, 'n': U.big(n)}
+
+
+def size_cases(thorough=False):
+    """(T, v) with sizes around the X.690 length-octet and CER segment boundaries; too big for TLC to
+    enumerate as part of the universe but cheap to judge one by one."""
+    out = []
+    pat = lambda n: [(i * 7 + 3) % 256 for i in range(n)]
+    lens = [127, 128, 255, 256, 999, 1000, 1001, 2000, 2001] + ([65535, 65536] if thorough else [])
+    for n in lens:
+        out.append((sc('octs'), {'o': pat(n)}))
+    for n in (1000, 1001, 2001):
+        out.append((sc('utf8'), {'o': [97 + (i % 26) for i in range(n)]}))
+        out.append((sc('ia5', [op('E', 2, 1)]), {'o': [65 + (i % 26) for i in range(n)]}))
+        out.append((sc('octs', [op('I', 2, 31)]), {'o': pat(n)}))
+    for nbits in (7992, 7999, 8000, 8001, 8008, 16001):
+        out.append((sc('bits'), {'bits': [(i * 5 + 1) % 3 % 2 for i in range(nbits)]}))
+    out.append(({'k': 'seqof', 'tags': [], 'of': sc('int')},
+                {'es': [U.int_term(i - 60) for i in range(130)]}))
+    out.append(({'k': 'setof', 'tags': [], 'of': sc('octs')},
+                {'es': [{'o': x} for x in ([1], [1, 0], [1, 0, 0], [0, 255], [], [1], [2])]}))
+    out.append(({'k': 'seq', 'tags': [], 'comps': [
+        {'name': 'a', 't': sc('octs'), 'mode': 'req'},
+        {'name': 'b', 't': sc('bits', [op('I', 2, 0)]), 'mode': 'opt'}]},
+        {'cs': [{'p': True, 'v': {'o': pat(1500)}}, {'p': True, 'v': {'bits': [1] * 8009}}]}))
+    return out
